@@ -372,7 +372,7 @@ func topFuncs(m map[string]int, mod string) []map[string]interface{} {
 	}
 	var l []kv
 	for k, v := range m {
-		if strings.Contains(k, mod) && !strings.Contains(k, "/internal/vnd") && !strings.Contains(k, "Verif") && !strings.Contains(k, "/internal/vstub") {
+		if strings.Contains(k, mod) && !strings.Contains(k, "/internal/vnd") && !strings.Contains(k, ".Verif") && !strings.Contains(k, "/internal/vstub") {
 			l = append(l, kv{k, v})
 		}
 	}
